@@ -6,6 +6,9 @@ def dispatch (line : String) : String :=
   | "gen" :: args => handleGen args
   | "call" :: args => handleCall args
   | "disp" :: args => handleDisp args
+  | "getlist" :: args => handleGetList args
+  | "fill" :: args => handleFill args
+  | "charptr" :: args => handleCharPtr args
   | _ => "bad-op"
 
 partial def loop (h : IO.FS.Stream) (out : IO.FS.Stream) : IO Unit := do
